@@ -301,7 +301,7 @@ impl StorageEngine {
         }
         
         let stored_value = StoredValue::with_expiration(Value::String(value), expires_in);
-        let expires_at = crate::storage::value::ValueMetadata::deadline_after(Instant::now(), expires_in);
+        let expires_at = crate::storage::value::ValueMetadata::deadline_after(crate::storage::clock::now(), expires_in);
         shard_guard.expiring_keys.insert(key.clone(), expires_at);
         shard_guard.data.insert(key.clone(), stored_value);
         shard_guard.mark_modified(&key);
@@ -421,7 +421,7 @@ impl StorageEngine {
         
         if let Some(stored_value) = shard_guard.data.get_mut(key) {
             stored_value.metadata.set_expiration(expires_in);
-            shard_guard.expiring_keys.insert(key.to_vec(), crate::storage::value::ValueMetadata::deadline_after(Instant::now(), expires_in));
+            shard_guard.expiring_keys.insert(key.to_vec(), crate::storage::value::ValueMetadata::deadline_after(crate::storage::clock::now(), expires_in));
             shard_guard.mark_modified(key);
             Ok(true)
         } else {
@@ -436,7 +436,7 @@ impl StorageEngine {
         
         if let Some(stored_value) = shard_guard.data.get(key) {
             if let Some(expires_at) = stored_value.metadata.expires_at {
-                let now = Instant::now();
+                let now = crate::storage::clock::now();
                 if expires_at > now {
                     Ok(Some(expires_at - now))
                 } else {
@@ -2808,7 +2808,7 @@ impl StorageEngine {
             crate::verif::sweeper_wait_while_paused();
             
             for (db_index, database) in engine.databases.iter().enumerate() {
-                let now = Instant::now();
+                let now = crate::storage::clock::now();
                 
                 // Check each shard for expired keys
                 for shard in &database.shards {
